@@ -122,6 +122,31 @@ def run_case(case, workdir):
                             and np.shape(val["y"]) == ey.shape and np.allclose(val["y"], ey, rtol=1e-12, atol=1e-12 * ref.dx[L][1])):
                         rec.fail("coordinates", sub, "x/y are not the cell centres of the grid")
                     rec.outcome(h64([dh, fl, limit, [zlib_crc(val.get(n)) for n in want]]))
+    # the command line entry point, array format: the .npz must hold the covering grid
+    import os
+    import amr_kitchen.mandoline.cli as mcli
+    from ..common import run_cli
+    for limit, serial, fl in ((None, False, [names[2], names[0], "grid_level"]), (0, True, ["all"])):
+        L = ref.nlevels - 1 if limit is None else limit
+        cov, lvl = ref.covering(limit=L, with_level=True)
+        out = os.path.join(workdir, "cli_out")
+        argv = ["mandoline", path, "-f", "array", "-o", out, "-V", "0", "-v"] + fl + (["-L", str(limit)] if limit is not None else []) + (["-s"] if serial else [])
+        with vpool.controlled():
+            with poisoned(MODS, 0):
+                st, val = run_cli(mcli.main, argv)
+        rec.exe([dh, "cli", limit, serial], nontrivial=True)
+        sub = {"argv": argv}
+        if st != "ok":
+            rec.fail("cli_failed", sub, "%s %s" % (st, val))
+            continue
+        z = np.load(out + ".npz")
+        want = names if fl == ["all"] else [f for f in fl if f != "grid_level"]
+        for nm in want:
+            if nm not in z.files or not bits_equal(z[nm], cov[..., names.index(nm)].T):
+                rec.fail("cli_values", dict(sub, field=nm), "the saved array is not the covering grid")
+        if "grid_level" not in z.files or not np.array_equal(z["grid_level"], lvl.T):
+            rec.fail("cli_grid_level", sub, "saved grid_level is not the level map")
+        os.remove(out + ".npz")
     # histories on ONE Mandoline object: the second and third call must return what a fresh object returns
     for serial in (True, False):
         with vpool.controlled():
